@@ -30,10 +30,11 @@ def _real_objects():
     return mix, mem, Pervaporation(mem, mix)
 
 
-def _call_real(entry, both=True, N=2):
+def _call_real(entry, both=True, N=2, Tp=293.15, Pp=1.0):
     """the same entry point on the real code with floats"""
     mix, mem, pz = _real_objects()
-    Tp, Pp = (293.15, 1.0) if both else (293.15, None)
+    if not both:
+        Pp = None
     comp = mixmod.Composition(0.2, "weight")
     P = (pv.Permeance(0.03), pv.Permeance(0.002))
     if entry == "driving_force":
@@ -62,11 +63,18 @@ def concrete(inp):
     entry = inp.get("entry")
     bad = []
     if entry in ENTRY:
-        try:
-            _call_real(entry, both=True)
-            bad.append("%s accepted both a permeate temperature and a permeate pressure" % entry)
-        except Exception:
-            pass
+        import warnings
+        pairs = [(inp.get("Tp"), inp.get("Pp"))] if inp.get("Tp") is not None and inp.get("Pp") is not None else []
+        pairs += [(293.15, 1.0), (293.15, 0.0), (293.15, 0), (0.0, 1.0), (0, 0)]
+        for tp, pp in pairs:
+            try:
+                with warnings.catch_warnings():
+                    warnings.simplefilter("ignore")
+                    _call_real(entry, both=True, Tp=tp, Pp=pp)
+                bad.append("%s accepted permeate temperature %r together with permeate pressure %r" % (entry, tp, pp))
+                break
+            except Exception:
+                pass
     cls = inp.get("class")
     if cls:
         try:
@@ -128,7 +136,7 @@ def both_specified(job, entry, N):
                 job.record(tag + "/leaf%d" % n, "inconclusive", "flux-loop bound reached without a rejection")
             else:
                 # a returning (or otherwise ending) leaf: is it reachable?
-                job.prove(tag + "/leaf%d_does_not_return" % n, dom + leaf.pc, z3.BoolVal(True), R_, {"entry": entry}, fallback=[{"entry": entry}])
+                job.prove(tag + "/leaf%d_does_not_return" % n, dom + leaf.pc, z3.BoolVal(True), R_, {"entry": entry, "Tp": Tp.t, "Pp": Pp.t}, fallback=[{"entry": entry}])
         if n == 0:
             job.vacuity["failed"].append(tag + ": no path")
         # twin: the same call with a valid specification (permeate temperature only) has a returning leaf
